@@ -19,6 +19,11 @@ def check(tier, seed):
                  dict(name="assumption_key_separates_positions", kind="monitor", shards=lambda t: 4 if t == "quick" else 8,
                       args=lambda t, s, sh, path: ["pos-monitor", 1500 if t == "quick" else 20000, s * 1000 + 940 + sh, 1],
                       violation_kinds=["different-positions-same-key", "same-position-different-key"]),
+                 # assumption of the model: every move the tree search makes and counts is a legal move of its node (the move
+                 # loops rely on the legality filter after DoMove); checked through the move-loop hook on real searches
+                 dict(name="assumption_tree_moves_are_legal", kind="monitor", shards=lambda t: 4 if t == "quick" else 16,
+                      args=lambda t, s, sh, path: ["c07-monitor", 60 if t == "quick" else 1500, s * 1000 + 860 + sh],
+                      violation_kinds=["illegal-move-searched-in-tree"]),
                  dict(name='search_monitor', kind="monitor", shards=lambda t: 4 if t == "quick" else 16,
                       args=lambda t, s, sh, path: ['c05-monitor', 40 if t == "quick" else 600, s * 1000 + sh])])
 
